@@ -11,7 +11,7 @@
 From Coq Require Import NArith List Lia.
 From SasLexer Require Import Gen.TokenType Gen.ErrorKind Gen.Channel Model.Base Model.Core Model.Buffer
      Model.Lexer3 Proofs.Generic Proofs.LexGeneric Proofs.DbgErase Proofs.Sorted Proofs.LexSorted
-     Proofs.BufferProofs Proofs.WfCheck Properties.C19 Spec.RefLex Proofs.RefLexTiling Proofs.OcBase Proofs.OcWhole Proofs.OcAll.
+     Proofs.BufferProofs Proofs.WfCheck Properties.C19 Spec.RefLex Proofs.RefLexTiling Proofs.OcBase Proofs.OcWhole Proofs.OcAll Proofs.MacroFree.
 Import ListNotations.
 Open Scope N_scope.
 
@@ -78,17 +78,7 @@ Theorem C02_macro_free_tiling : forall (msep : bool) (src : list char),
   let toks := b_toks (lr_buffer (lex (mkCfg false msep) src)) in
   let '(bb, text) := match src with c :: r => if c =? 65279 then (utf8_len c, r) else (0, src) | [] => (0, src) end in
   chain bb (bb + blen text) (map t_byte toks) /\ match toks with t :: _ => t_byte t = bb | [] => False end.
-Proof.
-  intros msep src H. pose proof (lex_is_reflex_macro_free msep src H) as G. cbv zeta in G |- *.
-  pose proof (reflex_tiling src) as Tl.
-  destruct (match src with c :: r => if c =? 65279 then (utf8_len c, r) else (0, src) | [] => (0, src) end) as [bb text].
-  destruct (reflex src) as [[T E] lit]. destruct G as (_ & _ & G3 & _). destruct Tl as [T1 T2].
-  assert (K : map t_byte (b_toks (lr_buffer (lex (mkCfg false msep) src))) = map rt_byte T).
-  { pose proof (f_equal (map (fun x : TokenType * TokenChannel * N * payload => snd (fst x))) G3) as K. rewrite !map_map in K. exact K. }
-  split; [rewrite K; exact T1|].
-  destruct (b_toks (lr_buffer (lex (mkCfg false msep) src))) as [|t ts]; destruct T as [|u us]; cbn [map] in K; try discriminate; [exact T2|].
-  injection K as K1 _. rewrite K1. exact T2.
-Qed.
+Proof. exact mf_C02_macro_free_tiling. Qed.
 Print Assumptions C02_macro_free_tiling.
 
 (** ... and exactly one EOF token, the last one, at the end of the text *)
@@ -98,30 +88,7 @@ Theorem C02_macro_free_single_eof : forall (msep : bool) (src : list char),
   let '(bb, text) := match src with c :: r => if c =? 65279 then (utf8_len c, r) else (0, src) | [] => (0, src) end in
   exists L e, toks = L ++ [e] /\ t_type e = T_EOF /\ t_byte e = bb + blen text /\
               Forall (fun t => t_type t <> T_EOF) L.
-Proof.
-  intros msep src H. pose proof (lex_is_reflex_macro_free msep src H) as G. cbv zeta in G |- *.
-  pose proof (reflex_single_eof src) as Se.
-  pose proof (C02_last_is_eof (mkCfg false msep) src) as Hlast.
-  destruct (match src with c :: r => if c =? 65279 then (utf8_len c, r) else (0, src) | [] => (0, src) end) as [bb text].
-  destruct (reflex src) as [[T E] lit]. destruct G as (_ & _ & G3 & _). destruct Se as (L' & HL' & Hcase).
-  set (toks := b_toks (lr_buffer (lex (mkCfg false msep) src))) in *.
-  assert (Hty : forall A B, map tv0 A = map rv B -> Forall not_eof B -> Forall (fun t => t_type t <> T_EOF) A).
-  { induction A as [|a A IHA]; intros [|b B] E0 F0; cbn [map] in E0; try discriminate; constructor.
-    - injection E0 as E1 _. inversion F0; subst. unfold not_eof in *. unfold tv0, rv in E1.
-      assert (t_type a = rt_type b) by congruence. congruence.
-    - injection E0 as _ E2. inversion F0; subst. eapply IHA; eassumption. }
-  destruct Hcase as [-> | ->].
-  - exfalso. pose proof (Hty toks L' G3 HL') as F.
-    destruct toks as [|t0 ts]; [specialize (Hlast (mkTok CH_DEFAULT T_WS 0 0 0 PNone)); discriminate Hlast|].
-    specialize (Hlast t0).
-    assert (Hin : In (last (t0 :: ts) t0) (t0 :: ts)) by (apply (@exists_last _ (t0 :: ts)) in Hlast || idtac; clear; generalize t0 at 1 3; induction ts as [|x ts IH]; intros d; [left; reflexivity|]; cbn [last]; destruct ts; [right; left; reflexivity|]; right; apply (IH x)).
-    exact (proj1 (Forall_forall _ _) F _ Hin Hlast).
-  - rewrite map_app in G3. apply map_eq_app in G3. destruct G3 as (L & R & Et & EL & ER).
-    destruct R as [|e [|e2 R']]; cbn [map] in ER; try discriminate.
-    exists L, e. split; [exact Et|]. injection ER as ER.
-    unfold tv0, rv in ER. cbn [rt_type rt_chan rt_byte rt_payload] in ER.
-    split; [congruence|]. split; [congruence|]. exact (Hty L L' EL HL').
-Qed.
+Proof. exact mf_C02_macro_free_single_eof. Qed.
 Print Assumptions C02_macro_free_single_eof.
 
 Example c02_example :
